@@ -86,14 +86,14 @@ class HeaderExtensionsMap:
                 values.repaired_rtp_stream_id = x_value.decode("ascii")
             elif x_id == self.__ids.rtp_stream_id:
                 values.rtp_stream_id = x_value.decode("ascii")
-            elif x_id == self.__ids.abs_send_time:
+            elif x_id == self.__ids.abs_send_time and len(x_value) == 3:
                 values.abs_send_time = unpack("!L", b"\00" + x_value)[0]
-            elif x_id == self.__ids.transmission_offset:
+            elif x_id == self.__ids.transmission_offset and len(x_value) == 3:
                 values.transmission_offset = unpack("!l", x_value + b"\00")[0] >> 8
-            elif x_id == self.__ids.audio_level:
+            elif x_id == self.__ids.audio_level and len(x_value) == 1:
                 vad_level = unpack("!B", x_value)[0]
                 values.audio_level = (vad_level & 0x80 == 0x80, vad_level & 0x7F)
-            elif x_id == self.__ids.transport_sequence_number:
+            elif x_id == self.__ids.transport_sequence_number and len(x_value) == 2:
                 values.transport_sequence_number = unpack("!H", x_value)[0]
         return values
 
